@@ -305,6 +305,9 @@ func createShimChannel(ctx context.Context, host, shimPath string, rewriteHost b
 		targetURL := *(r.URL)
 		targetURL.Scheme = "ws"
 		targetURL.Host = host
+		// An opaque URL ("scheme:opaque") is serialized without its host; never let the
+		// client-supplied URL decide where we connect to.
+		targetURL.Opaque = ""
 		if originalHost := r.Host; rewriteHost && originalHost != "" {
 			r.Header.Set("Host", originalHost)
 		}
